@@ -21,3 +21,6 @@ Print Assumptions C04_report_relative.
 Check (C04_store_selections_inside : forall ops r rs rg,
   Store.get_res (Store.run ops) r = Some rs -> In rg (Store.r_sels rs) -> fst rg <= snd rg /\ snd rg <= Store.r_len rs).
 Print Assumptions C04_store_selections_inside.
+Check (C04_report_relative_none : forall b e pb pe m, b <= e -> pb <= pe -> ~ (pb <= b /\ e <= pe) ->
+  relative_offset (b, e) (pb, pe) m = None).
+Print Assumptions C04_report_relative_none.
